@@ -51,6 +51,10 @@ def method(eng, p, o, name, args, kws):
             if c[0] == 'slist' and c[2] == 'str':
                 return [(p, SStr(joinsep(sep, c[1])))]
         raise Unsupported('join of symbolic list')
+    if name in ('endswith', 'startswith') and isinstance(o, (str, SStr)) and len(args) == 1 and isinstance(args[0], (str, SStr)) and not kws:
+        trusted('str.startswith / str.endswith(one string): prefix / suffix test')
+        s = eng.to_str(p, o); x = eng.to_str(p, args[0])
+        return [(p, SBool(z3.SuffixOf(x, s) if name == 'endswith' else z3.PrefixOf(x, s)))]
     if name == 'encode' or name == 'decode':
         from . import libmodels
         return libmodels.str_codec(eng, p, o, name, args, kws)
